@@ -112,4 +112,15 @@ theorem rulesEquivBy_of (f : String → String) (dv tv : Vsys) : ∀ (ds ts : Li
 theorem equivBy_of_equiv (f : String → String) (dev tgt : Vsys) (h : equiv dev tgt = true) :
     equivBy f dev tgt = true := rulesEquivBy_of f dev tgt _ _ h
 
+/-! ### Nothing is left behind
+
+A completed approve leaves no object in the vsys that nothing mentions: the planner removes, as its
+last block of requests, every address, address-group, service and service-group of the device that
+the target's rules do not need.  (Equivalence alone does not see such objects.) -/
+
+/-- Names of the objects of `v` that no rule and no group of `v` mentions. -/
+def unreferenced (v : Vsys) : List String :=
+  ((v.addrs.map (·.name)) ++ (v.groups.map (·.name))).filter (fun n => !addrUsed v n) ++
+    ((v.svcs.map (·.name)) ++ (v.sgroups.map (·.name))).filter (fun n => !srvUsed v n)
+
 end NA.PanOs
